@@ -1727,8 +1727,12 @@ impl<K: Hash + Eq, V, RH: BuildHasher, REH: BuildHasher, FH: BuildHasher, FEH: B
     /// based on the current learned value of P
     fn replace(&mut self, freq_contains_key: bool) {
         let recent_evict_len = self.recent.len();
+        // evict from the recent list when it is over its target, and also whenever the frequent
+        // list has nothing to give (a full cache must always make room)
         if recent_evict_len > 0
-            && (recent_evict_len > self.p || (recent_evict_len == self.p && freq_contains_key))
+            && (recent_evict_len > self.p
+                || (recent_evict_len == self.p && freq_contains_key)
+                || self.frequent.is_empty())
         {
             match self.recent.remove_lru_in() {
                 None => None,
